@@ -46,11 +46,47 @@ func TestVerifC05FxWorkers(t *testing.T) {
 			}
 			atomic.AddInt64(&cur, -1)
 		}
-		src := fx.From(func(source chan<- any) {
+		// the stage's input in every shape a caller can hand it over: an unbuffered generator, a
+		// complete buffered list, a buffered channel that is still being fed, a Buffer(k) stage
+		shape := rapid.SampledFrom([]string{"From", "Just", "RangeBuffered", "RangeUnbuffered", "Buffer"}).Draw(t, "sourceShape")
+		gen := func(source chan<- any) {
 			for i := 0; i < items; i++ {
 				source <- i
 			}
-		})
+		}
+		var src fx.Stream
+		switch shape {
+		case "From":
+			src = fx.From(gen)
+		case "Just":
+			all := make([]any, items)
+			for i := range all {
+				all[i] = i
+			}
+			src = fx.Just(all...)
+		case "RangeBuffered", "RangeUnbuffered":
+			c := 0
+			if shape == "RangeBuffered" {
+				c = rapid.IntRange(1, 16).Draw(t, "chanCap")
+			}
+			ch := make(chan any, c)
+			prefill := rapid.IntRange(0, c).Draw(t, "prefill")
+			if prefill > items {
+				prefill = items
+			}
+			for i := 0; i < prefill; i++ {
+				ch <- i
+			}
+			go func() {
+				for i := prefill; i < items; i++ {
+					ch <- i
+				}
+				close(ch)
+			}()
+			src = fx.Range(ch)
+		case "Buffer":
+			src = fx.From(gen).Buffer(rapid.IntRange(1, 16).Draw(t, "bufferSize"))
+		}
 		var out []int
 		collect := func(s fx.Stream) {
 			s.ForEach(func(item any) { out = append(out, item.(int)) })
@@ -66,7 +102,7 @@ func TestVerifC05FxWorkers(t *testing.T) {
 			src.Parallel(func(item any) { enter(item.(int)) }, fx.WithWorkers(w))
 		}
 		if max > int64(eff) {
-			t.Fatalf("%s with WithWorkers(%d): %d callbacks ran at once", op, w, max)
+			t.Fatalf("%s with WithWorkers(%d) on a %s source: %d callbacks ran at once", op, w, shape, max)
 		}
 		for i, c := range seen {
 			if c != 1 {
@@ -80,7 +116,7 @@ func TestVerifC05FxWorkers(t *testing.T) {
 			}
 		}
 		if items > eff && max == int64(eff) {
-			st.NonTrivial(fmt.Sprintf("%s items=%d w=%d", op, items, w))
+			st.NonTrivial(fmt.Sprintf("%s %s items=%d w=%d", op, shape, items, w))
 		}
 	})
 }
